@@ -292,13 +292,15 @@ impl<'a> Page<'a> {
             return Err(Error::WalProtocol("index page: not internal"));
         }
         let n = self.cell_count();
-        // upper_bound: first key > target
+        // lower_bound: first separator >= target. Entries equal to a separator may sit at the end
+        // of the child left of it (a run of equal keys can straddle a split), so that child is
+        // where the run starts: lookups, inserts and deletes all begin there and move right.
         let mut lo = 0usize;
         let mut hi = n;
         while lo < hi {
             let mid = (lo + hi) / 2;
             let (k, _) = self.internal_cell_key_and_right_child(mid)?;
-            if k <= target {
+            if k < target {
                 lo = mid + 1;
             } else {
                 hi = mid;
@@ -485,10 +487,9 @@ impl BTree {
                                     (k.to_vec(), v)
                                 })
                                 .collect();
-                            // Insert new entry into the sorted list.
-                            let pos = entries
-                                .binary_search_by(|(k, _)| k.as_slice().cmp(key))
-                                .unwrap_or_else(|p| p);
+                            // Insert new entry into the sorted list, in front of any equal keys
+                            // (same position `leaf_lower_bound` picks: newest first).
+                            let pos = entries.partition_point(|(k, _)| k.as_slice() < key);
                             entries.insert(pos, (key.to_vec(), payload));
 
                             let mid = entries.len() / 2;
@@ -527,37 +528,46 @@ impl BTree {
     /// This implementation only modifies the leaf page containing the key.
     /// It does NOT yet implement page merging or rebalancing (MVP).
     pub fn delete(&mut self, pager: &mut Pager, key: &[u8], payload: u64) -> Result<bool> {
+        // Descend to the leaf where the run of entries with this key starts.
         let mut cur = self.root;
         loop {
             let mut buf = pager.read_page(cur)?;
-            let kind = Page::new(&mut buf).kind()?;
-            match kind {
-                PageKind::Leaf => {
-                    let mut page = Page::new(&mut buf);
-                    // Use binary search to find exact match
-                    if let Ok(idx) =
-                        (0..page.cell_count())
-                            .collect::<Vec<_>>()
-                            .binary_search_by(|&i| {
-                                let (k, v) = page.leaf_cell_key_and_payload(i).unwrap();
-                                (k, v).cmp(&(key, payload))
-                            })
-                    {
-                        // Found it, delete in place
-                        page.delete_from_leaf(idx)?;
-                        pager.write_page(cur, &buf)?;
-                        return Ok(true);
-                    } else {
-                        // Not found in this leaf
-                        return Ok(false);
-                    }
-                }
+            let page = Page::new(&mut buf);
+            match page.kind()? {
+                PageKind::Leaf => break,
                 PageKind::Internal => {
-                    let page = Page::new(&mut buf);
                     let (child, _) = page.internal_child_for_key(key)?;
                     cur = child;
                 }
             }
+        }
+
+        // Entries with equal keys are kept newest first, not in payload order, and the run may
+        // continue in the right sibling: walk it until the pair or a larger key shows up.
+        let mut buf = pager.read_page(cur)?;
+        let mut idx = Page::new(&mut buf).leaf_lower_bound(key)?;
+        loop {
+            let mut page = Page::new(&mut buf);
+            if idx >= page.cell_count() {
+                let next = page.right_sibling();
+                if next.as_u64() == 0 {
+                    return Ok(false);
+                }
+                cur = next;
+                buf = pager.read_page(cur)?;
+                idx = 0;
+                continue;
+            }
+            let (k, v) = page.leaf_cell_key_and_payload(idx)?;
+            if k != key {
+                return Ok(false);
+            }
+            if v == payload {
+                page.delete_from_leaf(idx)?;
+                pager.write_page(cur, &buf)?;
+                return Ok(true);
+            }
+            idx += 1;
         }
     }
 
